@@ -393,7 +393,7 @@ def unit_baselines(ctx):
         f = b.ns[name]
         X = sym_array("X", (nfeat, NS))
         e0, d0 = sym_array("e", (NS,)), sym_array("d", (nfeat, NS))
-        hyps = [tm.mk_lt(tm.ZERO, X[0, g]) for g in range(NS)] + [tm.mk_lt(tm.const(Q(1, 10 ** 8)), X[1, g]) for g in range(NS)] + [tm.mk_le(tm.ZERO, X[3, g]) for g in range(NS)]
+        hyps = [tm.mk_lt(tm.ZERO, X[0, g]) for g in range(NS)] + [tm.mk_le(tm.ZERO, X[1, g]) for g in range(NS)] + [tm.mk_not(tm.mk_eq(X[1, g], tm.const(Q(1, 10 ** 8)))) for g in range(NS)] + [tm.mk_le(tm.ZERO, X[3, g]) for g in range(NS)]
         it.hyps = list(hyps)
 
         def thunk():
@@ -411,7 +411,7 @@ def unit_baselines(ctx):
                 for i in range(nfeat):
                     ctx.equal("%s.dedx[%d,%d] += d e/dX#%d" % (name, i, g, pi_), H, d[i, g], d0[i, g] + tm.diff(vc.simplify_ite(H, val), X[i, g]), [BMOD + ":" + name])
             ctx.canary("%s.canary#%d" % (name, pi_), H, d[0, 0], d0[0, 0])
-    ctx.assume("_chachiyo_x_helper: stated for s2 > 1e-8 (the small-s2 Taylor branch replaces the formula below that; A7)")
+    ctx.assume("_chachiyo_x_helper: stated for every s2 >= 0 except the switching point s2 = 1e-8 between the Taylor branch and the closed form (both branches are checked; the value jumps by O(s2^2) there)")
     # _sl_x_helper: average over spin channels
     for nspin in (1, 2):
         X = sym_array("X", (nspin, nfeat, NS))
